@@ -290,6 +290,8 @@ class Verdicts:
         for key, (k, n) in sorted(self.known_hit.items()):
             print("KNOWN-FINDING: property=%s %s [%s; %d rejected case(s) this run]" % (self.prop, k.get("what", ""), key, n))
         if not self.violations:
+            if os.environ.get("VERIF_DUMP") and os.path.exists(os.environ["VERIF_DUMP"]):
+                os.remove(os.environ["VERIF_DUMP"])
             return 0
         os.makedirs(REPLAYS, exist_ok=True)
         if os.environ.get("VERIF_DUMP"):
